@@ -718,6 +718,22 @@ class HostInterp:
             return self.call(e, env)
         raise AnalysisError(f"rewriter interpretation: unsupported expression {type(e).__name__} at line {getattr(e, 'lineno', '?')}")
 
+    def _metaclass_hook(self, cls_name, hook):
+        """the method `hook` of the package metaclass of the package class `cls_name`, if it has one"""
+        from . import orderdom as _od
+
+        if _od.PACKAGE is None:
+            return None
+        cs = [c for c in _od.PACKAGE.all_classes() if c.name == cls_name and getattr(c, "parent_func", None) is None]
+        if len(cs) != 1:
+            return None
+        for k in cs[0].node.keywords:
+            if k.arg == "metaclass" and isinstance(k.value, ast.Name):
+                ms = [c for c in _od.PACKAGE.all_classes() if c.name == k.value.id and getattr(c, "parent_func", None) is None]
+                if len(ms) == 1:
+                    return _od.PACKAGE.raw_methods(ms[0]).get(hook)
+        return None
+
     def as_callable(self, v):
         if isinstance(v, Instance) and "__call__" in v._methods:
             return lambda *a, **k: self.call_function(v._methods["__call__"], [v] + list(a), k, {})
@@ -808,6 +824,10 @@ class HostInterp:
         if fn is type and len(args) == 1 and isinstance(args[0], Instance):
             return ("class", args[0]._cls_name)
         if fn is isinstance and len(args) == 2 and isinstance(args[1], tuple) and len(args[1]) == 2 and args[1][0] == "class":
+            hook = self._metaclass_hook(args[1][1], "__instancecheck__")
+            if hook is not None:
+                # a class of the package whose metaclass (of the package too) answers isinstance itself
+                return self.call_function(hook, [args[1], args[0]], {}, {})
             return isinstance(args[0], Instance) and args[0]._cls_name == args[1][1]
         if fn is hasattr and len(args) == 2 and isinstance(args[0], Instance):
             return args[1] in args[0].__dict__ or args[1] in args[0]._methods
